@@ -67,17 +67,18 @@ Definition variant_label (ra : style) (name : option bytes) (ident : bytes) : by
 (* the closed value of a leaf; a declared unit replaces the unit of a metric *)
 Definition with_unit (u : option N) (v : vcall) : vcall :=
   match u, v with
-  | Some u, VMetric o _ => VMetric o u
+  | Some u, VMetric o _ d f => VMetric o u d f
   | _, _ => v
   end.
 Fixpoint sp_leaf (l : leaf) : vcall :=
   match l with
-  | LNum o u => VMetric o u
+  | LNum o u => VMetric o u [] false
   | LStr s => VString s
   | LEnum ra vs i => let v := nth i vs ([], None) in VString (variant_label ra (snd v) (fst v))
   | LVal u inner => with_unit u (sp_leaf inner)
   | LOpt true inner => sp_leaf inner
   | LOpt false _ => VNone
+  | LWrap w inner => wrap_value w (sp_leaf inner)
   end.
 Fixpoint sp_group (l : leaf) : bytes :=
   match l with
@@ -93,13 +94,14 @@ Definition unit_compatible (u : option N) (v : vcall) : bool :=
   match u, v with
   | None, _ => true
   | Some _, VNone => true
-  | Some u, VMetric _ u0 => (u0 =? 0) || (u0 =? u)
+  | Some u, VMetric _ u0 _ _ => (u0 =? 0) || (u0 =? u)
   | Some _, _ => false
   end.
 Fixpoint leaf_units_ok (l : leaf) : bool :=
   match l with
   | LVal u inner => leaf_units_ok inner && unit_compatible u (sp_leaf inner)
   | LOpt _ inner => leaf_units_ok inner
+  | LWrap _ inner => leaf_units_ok inner
   | _ => true
   end.
 
@@ -112,6 +114,14 @@ Inductive row :=
 | RTimestamp (t : N)
 | RValue (name : bytes) (v : vcall) (group : option bytes)   (* one per non-ignored field / tag *)
 | RGroup (name value : bytes).                                (* sample-group pair of a hand-written Entry *)
+
+(* a wrapped flattened child: every value it writes gets the wrapper's dimensions / flag; names and sample
+   groups are the child's *)
+Definition wrap_row (w : wrapper) (r : row) : row :=
+  match r with
+  | RValue n v g => RValue n (wrap_value w v) g
+  | _ => r
+  end.
 
 Fixpoint sp_entry (d : edef) (st : style) (acc : bytes) {struct d} : list row :=
   match d with
@@ -130,6 +140,7 @@ with sp_field (st : style) (pfx : option prefix) (id : bytes) (k : fkind) (acc :
   | KFlatten p o d =>
       match o with
       | OptNone => []
+      | Wrapped w => map (wrap_row w) (sp_entry d st (acc ++ flat_prefix st p))
       | _ => sp_entry d st (acc ++ flat_prefix st p)
       end
   | KFlattenEntry raw rawsg =>
